@@ -8,27 +8,6 @@ Open Scope Z_scope.
 
 (* ---- a measure that every internal event decreases --------------------------------------- *)
 
-Definition rank (l : lpc) : nat :=
-  match l with
-  | LNone => 0 | LEmptyExit => 2 | LStopExit => 2 | LExecuting _ => 3 | LWaiting _ _ => 4
-  | LArming _ _ => 5 | LDeciding _ => 6 | LChecked _ => 7 | LTop => 8 | LCallback _ => 9
-  end.
-
-Definition crank (c : cpc) : nat :=
-  match c with CNone => 4 | CStopped => 3 | CClosed => 2 | CToken => 1 | CReturned => 0 end.
-
-(* the loop carries an item that is no longer the head *)
-Definition stale (s : state) : nat :=
-  match loop s with
-  | LChecked r | LDeciding r | LArming r _ | LWaiting r _ | LExecuting r =>
-      if is_head r (q s) then 0 else 1
-  | _ => 0
-  end.
-
-Definition measure (s : state) : nat :=
-  16 * length (q s) + (if reset s then 8 else 0) + 8 * stale s + rank (loop s) + exiting s +
-  crank (close s) + cwait s.
-
 Lemma is_head_peek r ql : q_peek ql = Some r -> is_head r ql = true.
 Proof. unfold is_head. intros ->. apply item_eqb_refl. Qed.
 
